@@ -63,7 +63,7 @@ def cfg_const(cfg_text, name, default=None):
     return int(m.group(1)) if m else default
 
 
-def mc_job(name, module, cfgs, props, export=True, cap_q=1500, cap_t=20000, workers=12, timeout_q=300, timeout_t=3000):
+def mc_job(name, module, cfgs, props, export=True, cap_q=700, cap_t=20000, workers=12, timeout_q=300, timeout_t=3000):
     """Model-check MC configs (quick: cfgs['quick'], thorough: cfgs['thorough']) and export the paths as schedules."""
     def job(tier, wd, rng):
         out = []
@@ -224,10 +224,15 @@ def run_check(pid, tier, replay=None):
         k = next(x for x in known if x["id"] == kid)
         print("KNOWN-FINDING: property=%s %s (%s, seen %d times)" % (pid, k["what"], kid, known_hit.count(kid)))
     seen = set()
+    per_sig = {}
     for v in violations:
         if v["replay"] in seen:
             continue
         seen.add(v["replay"])
+        k = json.dumps(v.get("sig", v.get("invariant")), sort_keys=True)
+        per_sig[k] = per_sig.get(k, 0) + 1
+        if per_sig[k] > 3:
+            continue
         if v["where"] == "model":
             print("VIOLATION property=%s replay=%s  (model config %s violates %s)" % (pid, v["replay"], v["name"], v["invariant"]))
         else:
@@ -297,6 +302,66 @@ def g_random_mixed(rng, tier, props):
     return out
 
 
+def g_random_ru(rng, tier, props):
+    out = []
+    for i in range(n_of(tier, 30, 400)):
+        chans = [GM.chan(0, "RU", resend=rng.choice([100, 300, 500]))]
+        lens = rng.choice([None, [5, 700, 800, 1201, 2401], [600, 700, 900, 1100]])
+        out.append(GM.random_schedule(rng, "ru-%d" % i, props, chans_sc=chans, chans_cs=chans, ticks=rng.randint(5, 40), lens=lens,
+                                      p_drop=rng.choice([0.0, 0.15, 0.4]), p_dup=rng.choice([0.1, 0.3, 0.5]), inorder=rng.choice([0.2, 0.6]),
+                                      p_recv=rng.choice([0.2, 0.7])))
+    return out
+
+
+def g_random_u(rng, tier, props):
+    out = []
+    for i in range(n_of(tier, 30, 400)):
+        chans = [GM.chan(0, "U"), GM.chan(1, rng.choice(["RO", "RU", "U"]))]
+        lens = rng.choice([None, [0, 1, 7, 1199, 1200, 1201, 2400, 2401, 3601], [1201, 1300, 2401]])
+        out.append(GM.random_schedule(rng, "u-%d" % i, props, chans_sc=chans, chans_cs=chans, ticks=rng.randint(5, 30), lens=lens,
+                                      p_drop=rng.choice([0.0, 0.2]), p_dup=rng.choice([0.2, 0.5]), inorder=rng.choice([0.2, 0.6]),
+                                      dts=(100, 300, 1000, 3000), live=False))
+    return out
+
+
+def g_random_acks(rng, tier, props):
+    out = []
+    for i in range(n_of(tier, 40, 500)):
+        kind = rng.choice(["RO", "RU"])
+        chans = [GM.chan(0, kind, resend=rng.choice([100, 300]))]
+        lens = rng.choice([None, [5, 7, 700, 1201, 2401, 3601]])
+        out.append(GM.random_schedule(rng, "ack-%d" % i, props, chans_sc=chans, chans_cs=chans, ticks=rng.randint(5, 40), lens=lens,
+                                      p_deliver=0.45, p_drop=0.3, p_dup=0.15, inorder=rng.choice([0.1, 0.5, 0.9]), max_sends=2,
+                                      dts=(100, 300, 400, 1500, 3100)))
+    return out
+
+
+def g_random_budget(rng, tier, props):
+    import itertools
+    out = []
+    orders = list(itertools.permutations(["U", "RO", "RU"]))
+    for i in range(n_of(tier, 40, 500)):
+        kinds = rng.choice(orders)
+        chans = [GM.chan(j, k, resend=rng.choice([100, 300])) for j, k in enumerate(kinds)]
+        budget = rng.choice([0, 1, 99, 100, 1199, 1200, 1201, 2400, 3600, 5000, 60000])
+        lens = rng.choice([[0, 1, 50, 99, 100, 101, 150], [100, 1199, 1200, 1201, 2400, 3600], None])
+        out.append(GM.random_schedule(rng, "bud-%d" % i, props, chans_sc=chans, chans_cs=chans, budget=budget, ticks=rng.randint(4, 25), lens=lens,
+                                      p_drop=0.1, p_dup=0.05, p_send=0.8, max_sends=4, live=False))
+    return out
+
+
+def g_random_timing(rng, tier, props):
+    out = []
+    for i in range(n_of(tier, 40, 500)):
+        resend = rng.choice([100, 300, 500])
+        chans = [GM.chan(0, rng.choice(["RO", "RU"]), resend=resend), GM.chan(1, "RO", resend=resend)]
+        dts = rng.choice([(1, 50, 100), (resend - 1, resend, resend + 1), (100, 299, 300, 301, 700), (resend,), (10, 2 * resend)])
+        lens = rng.choice([[5, 9], [5, 1201, 2401, 3601], None])
+        out.append(GM.random_schedule(rng, "tim-%d" % i, props, chans_sc=chans, chans_cs=chans, ticks=rng.randint(6, 40), lens=lens, dts=dts,
+                                      p_deliver=0.5, p_drop=0.3, p_dup=0.1, p_send=0.3, max_sends=2))
+    return out
+
+
 MSG_ASSUME = [
     "TLC (trace monitor) and the observer module spec/RenetObs.tla are the oracle",
     "harness projection functions (content interning, packet description through the crate's own decoder behind the `verif` feature)",
@@ -305,5 +370,21 @@ MSG_ASSUME = [
 PLANS = {
     "C01": Plan("msg", "TraceRenetMon", ["C01"], [("random_ro", g_random_ro), ("random_mixed", g_random_mixed)],
                 mc=[mc_job("conn_ro", "MC_Conn", {"quick": ["MC_C01_q1.cfg"], "thorough": ["MC_C01_q1.cfg", "MC_C01_t1.cfg"]}, ["C01"])],
+                level="model_checking", assumptions=MSG_ASSUME),
+    "C02": Plan("msg", "TraceRenetMon", ["C02"], [("random_ru", g_random_ru), ("random_mixed", g_random_mixed)],
+                mc=[mc_job("conn_ru", "MC_Conn", {"quick": ["MC_C02_q1.cfg", "MC_C02_q2.cfg", "MC_C02_t1.cfg"], "thorough": ["MC_C02_q1.cfg", "MC_C02_q2.cfg", "MC_C02_t1.cfg"]}, ["C02"])],
+                level="model_checking", assumptions=MSG_ASSUME),
+    "C03": Plan("msg", "TraceRenetMon", ["C03"], [("random_u", g_random_u), ("random_mixed", g_random_mixed)],
+                mc=[mc_job("conn_u", "MC_Conn", {"quick": ["MC_C03_q1.cfg", "MC_C03_q2.cfg"], "thorough": ["MC_C03_q1.cfg", "MC_C03_q2.cfg", "MC_C03_t1.cfg"]}, ["C03"])],
+                level="model_checking", assumptions=MSG_ASSUME),
+    "C08": Plan("msg", "TraceRenetMon", ["C08"], [("random_acks", g_random_acks), ("random_mixed", g_random_mixed)],
+                mc=[mc_job("conn_acks", "MC_Conn", {"quick": ["MC_C08_q1.cfg", "MC_C08_q2.cfg"], "thorough": ["MC_C08_q1.cfg", "MC_C08_q2.cfg", "MC_C01_t1.cfg"]}, ["C08"])],
+                level="model_checking", assumptions=MSG_ASSUME),
+    "C14": Plan("msg", "TraceRenetMon", ["C14"], [("random_budget", g_random_budget)],
+                mc=[mc_job("conn_budget", "MC_Conn", {"quick": ["MC_C14_q1.cfg", "MC_C14_q2.cfg", "MC_C14_q3.cfg"],
+                                                       "thorough": ["MC_C14_q1.cfg", "MC_C14_q2.cfg", "MC_C14_q3.cfg", "MC_C14_t1.cfg"]}, ["C14"])],
+                level="model_checking", assumptions=MSG_ASSUME),
+    "C15": Plan("msg", "TraceRenetMon", ["C15"], [("random_timing", g_random_timing)],
+                mc=[mc_job("conn_timing", "MC_Conn", {"quick": ["MC_C15_q1.cfg", "MC_C15_q2.cfg"], "thorough": ["MC_C15_q1.cfg", "MC_C15_q2.cfg"]}, ["C15"])],
                 level="model_checking", assumptions=MSG_ASSUME),
 }
